@@ -308,6 +308,31 @@ def locality_direct(ctx, st, rng_tag, n):
                     return False
             else:
                 st.validated += 1
+        # a bound method whose function takes the instance through `*args` (`def cb(*args, **kwargs)`, a wrapper
+        # written without functools.wraps): everything positional after the instance and every keyword arrives
+        class _Star:
+            def cb(*args, **kwargs):
+                return (("args", tuple(args[1:])), ("kwargs", dict(kwargs)))
+        ssig = (("args", "vp", False), ("kwargs", "vk", False))
+        sargs, skw = G.random_call(rng, ssig, max_args=4)
+        try:
+            impl = G.canon_frame(callable_method(_Star().cb)(*sargs, **dict(skw)))
+        except TypeError:
+            impl = "TypeError"
+        sp, corner = spec_call(ssig, sargs, skw)
+        st.evaluations += 1
+        st.inc("locality:bound-method-with-star-args-self")
+        if not satisfies(impl, sp, corner):
+            txt = "\n".join([
+                "# kind: spec-fails-on-implementation (bound method `def cb(*args, **kwargs)`)",
+                f"# called through callable_method with *{list(sargs)} **{dict(skw)}",
+                f"# observed : {impl}", f"# expected : {sp}"]) + "\n"
+            rp = ctx.write_replay(f"locality-{scn_hash(txt)}.replay.txt", txt)
+            ctx.violation(rp, "bound method taking the instance through *args lost arguments")
+            if len(ctx.violations) >= 3:
+                return False
+        else:
+            st.validated += 1
         # two partials of one function
         base = rng.choice([s for s in variants if s and s[0][1] in ("po", "pk")] or [None])
         if base:
